@@ -1,7 +1,8 @@
 ----------------------------- MODULE MC_Listeners -----------------------------
 EXTENDS Listeners
-\* keys: 1 = stream a1, 2 = packet a1, 3 = stream a2
-MCKindOf == <<"s", "p", "s">>
+\* keys: 1 = stream a1, 2 = packet a1, 3 = stream a2, 4 = stream on an address a foreign socket holds,
+\*       5 = packet on an address a foreign socket holds
+MCKindOf == <<"s", "p", "s", "s", "p">>
 L(k, h) == [a |-> "listen", k |-> k, h |-> h]
 C(h)    == [a |-> "close",  k |-> 0, h |-> h]
 A(h)    == [a |-> "accept", k |-> 0, h |-> h]
@@ -22,12 +23,16 @@ ScrMix3 == { << <<L(1,1), A(1), C(1)>>, <<L(1,2), C(2), L(1,3)>>, <<A(2), C(3)>>
 ScrRace == { << <<L(1,1), L(1,2), C(1)>>, <<A(1)>>, <<A(2)>> >>,
              << <<L(2,1), L(2,2), C(1)>>, <<A(1)>>, <<A(2)>> >>,
              << <<L(1,1), L(1,2), A(2)>>, <<A(1), A(1)>>, <<C(1), C(2)>> >> }
+\* listens that must fail (foreign socket holds the address) among ordinary traffic: the failing call returns and
+\* the manager stays usable
+ScrBindFail == { << <<L(4,1), L(1,2), C(2)>>, <<L(1,3), C(3)>>, <<>> >>,
+                 << <<L(5,1), L(2,2), C(2)>>, <<L(4,3)>>, <<A(2)>> >> }
 \* more scripts for the thorough tier
 ScrMore == { << <<L(1,1), C(1), L(1,2)>>, <<L(1,3), A(3), C(3)>>, <<A(1), C(2)>> >>,
              << <<L(2,1), C(1), L(2,2)>>, <<L(2,3), A(3), C(3)>>, <<A(1), C(2)>> >>,
              << <<L(1,1), L(1,2), C(2)>>, <<A(1), A(2), C(1)>>, <<A(1)>> >>,
              << <<L(2,1), L(2,2), C(2)>>, <<A(1), A(2), C(1)>>, <<A(1)>> >>,
              << <<L(1,1), L(3,2)>>, <<C(1), C(2)>>, <<L(1,3), C(3)>> >> }
-ScrAll == ScrDeadlock \cup ScrStuck \cup ScrClosedRead \cup ScrMix3 \cup ScrRace
+ScrAll == ScrDeadlock \cup ScrStuck \cup ScrClosedRead \cup ScrMix3 \cup ScrRace \cup ScrBindFail
 ScrThorough == ScrAll \cup ScrMore
 ===============================================================================
